@@ -286,6 +286,8 @@ TEMPLATES = [
     [{"hooks": "none", "frozen": False}, {"hooks": "convert_only", "frozen": False, "user_setattr": False}],
     [{"hooks": "validate_only", "frozen": False, "user_setattr": False, "api": "attrs"}],
     [{"hooks": "convert_novalid", "frozen": False, "user_setattr": False, "api": "attrs"}],
+    # frozen=True on a class with a detected body __setattr__
+    [{"frozen": True, "user_setattr": True, "auto_detect": True, "hooks": "none"}],
     # define(on_setattr=NO_OP) below a frozen class is fine
     [{"frozen": True, "hooks": "none", "user_setattr": False},
      {"api": "define", "frozen": False, "hooks": "noop_cls", "user_setattr": False}],
